@@ -29,7 +29,7 @@ LEVEL_TEXT = ("Proved for all inputs of the models: SGR codes of every style are
               "for every token list, every resolver and every initial style stack; balanced token lists render to "
               "the concatenation of their texts and leave the stack unchanged; plain rendering is ESC-free and shows "
               "no resolved tag; line methods append exactly one newline; every non-empty line gets exactly the "
-              "indentation in force; every program of nested indentation scopes (any depth, exits by exception "
+              "indentation in force, before and after formatting (plain, and decorated with the sequences stripped); every program of nested indentation scopes (any depth, exits by exception "
               "included) restores the indentation and indents each line by its enclosing scopes only. The models "
               "are tied to the code by regenerated tables (style set, converter, pastel SGR tables, the write gate) "
               "and by differential runs against the real classes.")
@@ -39,7 +39,8 @@ LEVEL_NOTE = ("Trusted: Lean kernel + propext/Quot.sound/Classical.choice; tools
 LEAN_MODULES = ["Clikit.Props.C11"]
 REQUIRED_THEOREMS = ["Clikit.Props.C11." + n for n in (
     "sgr_exact", "strip_eq_plain", "balanced_text", "plain_no_escape", "line_methods_newline",
-    "indent_lines", "scope_restores", "message_strip_eq_plain", "message_balanced", "io_delegates")]
+    "indent_lines", "indent_lines_rendered", "scope_restores", "message_strip_eq_plain", "message_balanced",
+    "io_delegates")]
 RULE = ("msg: random ASTs (depth <= 4) over named styles of the default style set (any case), inline "
         "fg/bg/options specs, unknown tags, text over ASCII, '<' '>' '/', newline, non-ASCII incl. the four "
         "non-ASCII letters Python's case-insensitive [a-z] admits; non-trivial = at least one style node, distinct "
@@ -65,8 +66,8 @@ ASSUMPTIONS = [
     "messages contain no backslash and no ESC (backslash-escaped tags are outside the property's quantifier; "
     "the model covers them but they are not generated)",
     "section outputs: a single fresh section per stream (stacked sections are C15's subject)",
-    "indent_lines is proved for the string handed to the formatter and for the bytes of unformatted writes; that "
-    "formatting keeps the line prefixes is checked by the correspondence and the oracle, not proved",
+    "indent_lines_rendered (formatting keeps every line's indentation) is proved for the formatter entry points "
+    "on backslash-free text; that Output.write hands exactly the indented text to them is indent_lines",
     "streams are BufferedOutputStreams (no ANSI capability of their own); decoration is forced by the formatter",
 ]
 BUDGET_S = {"quick": 80, "thorough": 780}
@@ -417,7 +418,7 @@ def generate(tier, rng):
     for _ in range(20000 if thorough else 1000):
         yield {"k": "bad", "msg": gen_bad(rng)}
     # ---- messages
-    for _ in range(400000 if thorough else 12000):
+    for _ in range(400000 if thorough else 25000):
         pre = [rng.choice(NAMED) for _ in range(rng.choice([0, 0, 0, 0, 1, 2]))]
         style = rng.choice(STYLE_POOL) if rng.random() < 0.25 else None
         yield {"k": "msg", "ast": gen_nodes(rng, 4, 4), "pre": pre, "style": style}
